@@ -449,7 +449,7 @@ fn start_worlds(b: &Bridge, ids: &[VehicleIdx], tours: &ImMap<VehicleIdx, Tour>)
 
 pub fn exhaustive_depth(thorough: bool) -> usize {
     if thorough {
-        4
+        5
     } else {
         3
     }
@@ -761,7 +761,7 @@ pub fn case(ctx: &Ctx, idx: u64) -> CaseOut {
     let mut out = CaseOut::default();
     let ex = exhaustive_cases();
     if idx < ex {
-        crate::orch::announce_cpu_budget(600.0);
+        crate::orch::announce_cpu_budget(if ctx.thorough() { 7200.0 } else { 600.0 });
         exhaustive_case(ctx, idx, &mut out);
     } else {
         random_case(ctx, idx, &mut out);
